@@ -29,6 +29,13 @@ type atom struct {
 
 type astrv struct{ atoms []atom }
 
+// aend: the length of a particular abstract string minus back (a position counted from its end).
+type aend struct {
+	key  string // normal form of the string it measures
+	back int64
+	min  int64 // lower bound of the length
+}
+
 // alo: some integer that is at least min (the length of a string containing labels of unknown, non-zero length).
 type alo struct{ min int64 }
 
@@ -255,7 +262,16 @@ func (e *absEnv) strCall(name string, args []aval) (aval, bool) {
 		return mkStr(out), true
 	case "strings.TrimSpace":
 		if isStr(0) {
-			return args[0], true // symbols carry no surrounding blanks
+			a := append([]atom{}, at(0)...) // symbols carry no surrounding blanks
+			if n := len(a); n > 0 {
+				if a[0].sym == "" {
+					a[0].lit = strings.TrimLeft(a[0].lit, " \t\r\n")
+				}
+				if a[n-1].sym == "" {
+					a[n-1].lit = strings.TrimRight(a[n-1].lit, " \t\r\n")
+				}
+			}
+			return mkStr(a), true
 		}
 	case "strings.Split", "strings.SplitN":
 		sep, ok := lit(1)
@@ -447,6 +463,24 @@ func (e *absEnv) strCall(name string, args []aval) (aval, bool) {
 
 // strBinop handles concatenation and comparison of abstract strings (and of single bytes taken from them).
 func strBinop(op token.Token, a, b aval) (aval, bool) {
+	if x, ok := a.(aend); ok {
+		if c, ok := b.(aint); ok {
+			switch op {
+			case token.SUB:
+				x.back += int64(c)
+				return x, true
+			case token.ADD:
+				x.back -= int64(c)
+				return x, true
+			}
+			return strBinop(op, alo{x.min - x.back}, c)
+		}
+	}
+	if x, ok := b.(aend); ok {
+		if c, ok := a.(aint); ok {
+			return strBinop(op, c, alo{x.min - x.back})
+		}
+	}
 	if x, ok := a.(alo); ok {
 		if c, ok := b.(aint); ok {
 			switch {
@@ -690,6 +724,11 @@ func cutAt(atoms []atom, pos aval) (int, int, bool) {
 		return walk(0, 0, int64(p))
 	case apos:
 		return walk(p.ai, p.off, p.delta)
+	case aend:
+		if p.key != renderAtoms(atoms) || p.back < 0 {
+			return 0, 0, false
+		}
+		return walk(len(atoms), 0, -p.back)
 	}
 	return 0, 0, false
 }
@@ -1110,4 +1149,34 @@ func (e *absEnv) cellVal(c *aobj) aval {
 		return v
 	}
 	return e.load(c, "")
+}
+
+// strIndexAt: s[pos] for a position given as aint, apos or aend.
+func strIndexAt(s aval, pos aval) (aval, bool) {
+	atoms, ok := toAtoms(s)
+	if !ok {
+		return nil, false
+	}
+	if p, isEnd := pos.(aend); isEnd && p.back == 1 && p.key == renderAtoms(atoms) && len(atoms) > 0 {
+		if last := atoms[len(atoms)-1]; last.sym != "" && !last.byte1 {
+			// the last byte of a label: some byte that is no separator
+			return astrv{[]atom{{sym: last.sym + "[-1]", byte1: true, lower: last.lower}}}, true
+		}
+	}
+	ai, off, ok := cutAt(atoms, pos)
+	if !ok || ai >= len(atoms) {
+		return nil, false
+	}
+	a := atoms[ai]
+	if a.sym != "" {
+		if off != 0 {
+			return nil, false
+		}
+		if a.byte1 {
+			return astrv{[]atom{a}}, true
+		}
+		// the first byte of a label: some byte that is no separator
+		return astrv{[]atom{{sym: a.sym + "[0]", byte1: true, lower: a.lower}}}, true
+	}
+	return aint(a.lit[off]), true
 }
